@@ -617,17 +617,24 @@ def merge(tmpl_toks, src_exec):
             for k in range(i2 - i1):
                 x, y = a[i1 + k], b[j1 + k]
                 if x != y:
-                    if re.match(r'^[A-Za-z_][A-Za-z0-9_]*$', x) and re.match(r'^[A-Za-z_][A-Za-z0-9_]*$', y) and tmpl_toks[exec_idx[i1 + k]].kind == 'ident':
+                    if i1 + k > 0 and a[i1 + k - 1] == '.':
+                        bad.add(x)   # a field or method name changed: not a rename of a local
+                    elif re.match(r'^[A-Za-z_][A-Za-z0-9_]*$', x) and re.match(r'^[A-Za-z_][A-Za-z0-9_]*$', y) and tmpl_toks[exec_idx[i1 + k]].kind == 'ident':
                         if ren.get(x, y) != y:
                             bad.add(x)
                         ren[x] = y
                     else:
                         bad.add(x)
-    sa, sb = set(a), set(b)
+    # names of locals: identifiers that are not field or method names (not preceded by `.`)
+    def is_field(ts, k):
+        # `.name`, or `name:` inside a struct literal / pattern (`{ name: ..` / `, name: ..`)
+        return (k > 0 and ts[k - 1] == '.') or (k > 0 and k + 1 < len(ts) and ts[k + 1] == ':' and ts[k - 1] in ('{', ','))
+    sa = set(x for k, x in enumerate(a) if not is_field(a, k))
+    sb = set(x for k, x in enumerate(b) if not is_field(b, k))
     ren = {x: y for x, y in ren.items() if x not in bad and x not in sb and y not in sa and x not in KEYWORDS and y not in KEYWORDS}
     if ren:
-        for t in out:
-            if getattr(t, 'ghost', False) and t.kind == 'ident' and t.text in ren:
+        for k, t in enumerate(out):
+            if getattr(t, 'ghost', False) and t.kind == 'ident' and t.text in ren and not is_field([z.text for z in out[max(0, k - 1):k + 2]], 1 if k > 0 else 0):
                 t.text = ren[t.text]
     return out
 
